@@ -132,9 +132,13 @@ pub fn trigger_holds(trigger: &str, sc: &Scenario) -> bool {
 /// the known finding (status "known") this violation belongs to, if any
 pub fn attribute<'a>(k: &'a KnownFile, prop: &str, class: &str, sc: Option<&Scenario>) -> Option<&'a Finding> {
     k.findings.iter().find(|f| {
-        f.status == "known"
-            && f.property == prop
-            && class.starts_with(&f.class)
-            && sc.map(|s| trigger_holds(&f.trigger, s)).unwrap_or(false)
+        // property "*": the same defect seen through the termination clause of any property; its
+        // class is then matched after the "<property>/" prefix
+        let class_ok = if f.property == "*" {
+            class.split_once('/').map(|(_, rest)| rest.contains(f.class.as_str())).unwrap_or(false)
+        } else {
+            f.property == prop && class.starts_with(&f.class)
+        };
+        f.status == "known" && class_ok && sc.map(|s| trigger_holds(&f.trigger, s)).unwrap_or(false)
     })
 }
